@@ -67,7 +67,7 @@ func c07Evaluate(c c07Case) string {
 	where := map[int][2]interface{}{}
 	for file, src := range c.With {
 		for i, l := range strings.Split(src, "\n") {
-			if m := tagLineRe.FindStringSubmatch(l); m != nil {
+			for _, m := range tagLineRe.FindAllStringSubmatch(l, -1) {
 				var id int
 				fmt.Sscanf(m[1], "%d", &id)
 				where[id] = [2]interface{}{file, i + 1}
@@ -398,7 +398,7 @@ func c07Successors(p *proggen.Prog, site int, code string, diags []engine.Diag, 
 		}
 		lines := strings.Split(src[d.File], "\n")
 		if d.Line >= 1 && d.Line <= len(lines) {
-			if m := tagLineRe.FindStringSubmatch(lines[d.Line-1]); m != nil && m[1] == fmt.Sprint(site) {
+			if proggen.TagAtCol(lines, d.Line, d.Col) == site {
 				if mm := tonl01Re.FindStringSubmatch(d.Message); mm != nil {
 					name = mm[1]
 				} else if mm := pkgo01Re.FindStringSubmatch(d.Message); mm != nil {
